@@ -65,6 +65,7 @@ def_real!(r_wait4, "wait4", fn(pid_t, *mut c_int, c_int, *mut libc::rusage) -> p
 def_real!(r_waitid, "waitid", fn(libc::idtype_t, libc::id_t, *mut libc::siginfo_t, c_int) -> c_int);
 def_real!(r_kill, "kill", fn(pid_t, c_int) -> c_int);
 def_real!(r_killpg, "killpg", fn(pid_t, c_int) -> c_int);
+def_real!(r_prctl, "prctl", fn(c_int, usize, usize, usize, usize) -> c_int);
 def_real!(r_execve, "execve", fn(*const c_char, *const *const c_char, *const *const c_char) -> c_int);
 def_real!(r_execv, "execv", fn(*const c_char, *const *const c_char) -> c_int);
 def_real!(r_execvp, "execvp", fn(*const c_char, *const *const c_char) -> c_int);
@@ -118,7 +119,7 @@ pub const INTERPOSED: &[&str] = &[
     "waitid", "kill", "killpg", "execve", "execv", "execvp", "execvpe", "fexecve", "chdir", "fchdir", "setuid", "setgid", "setpgid",
     "setsid", "pthread_sigmask", "sigprocmask", "signal", "sigaction", "clock_gettime", "nanosleep", "clock_nanosleep", "_exit",
     "open64", "open", "openat", "openat64", "posix_spawn", "posix_spawnp", "close_range", "setgroups", "setresuid", "setresgid",
-    "setreuid", "setregid", "seteuid", "setegid", "syscall",
+    "setreuid", "setregid", "seteuid", "setegid", "syscall", "prctl",
 ];
 
 pub unsafe fn real_clock_gettime(id: libc::clockid_t, ts: *mut libc::timespec) -> c_int {
@@ -600,12 +601,42 @@ pub unsafe extern "C" fn waitid(idtype: libc::idtype_t, id: libc::id_t, info: *m
 #[no_mangle]
 pub unsafe extern "C" fn kill(pid: pid_t, sig: c_int) -> c_int {
     let on = ilog::active();
+    if on && pid <= 1 {
+        // a signal to a set of processes (0: the caller's group, -1: everything the caller may signal, < -1: a group) or to
+        // init is never carried out when monitored code asks for it - as root it would end the sandbox.  It is logged
+        // like any other call, so the oracles see where the signal was meant to go, and reported as delivered
+        log(k::KILL, [pid as i64, sig as i64, 0, 0], 0, 0, 0);
+        REFUSED_SET_KILLS.fetch_add(1, std::sync::atomic::Ordering::SeqCst);
+        return 0;
+    }
     simple!(on, k::KILL, [pid as i64, sig as i64, 0, 0], r_kill()(pid, sig))
+}
+
+/// signals to process sets that monitored code asked for and the monitor did not carry out
+pub static REFUSED_SET_KILLS: std::sync::atomic::AtomicUsize = std::sync::atomic::AtomicUsize::new(0);
+
+/// prctl(): carried out as asked and logged (what a child arranges for itself before exec - a parent-death signal,
+/// say - has effects that the oracles then see on the child)
+#[no_mangle]
+pub unsafe extern "C" fn prctl(option: c_int, a2: usize, a3: usize, a4: usize, a5: usize) -> c_int {
+    let on = ilog::active();
+    let r = r_prctl()(option, a2, a3, a4, a5);
+    if on {
+        let e = errno();
+        log(k::PRCTL, [option as i64, a2 as i64, a3 as i64, 0], r as i64, if r < 0 { e } else { 0 }, 0);
+        set_errno(e);
+    }
+    r
 }
 
 #[no_mangle]
 pub unsafe extern "C" fn killpg(pg: pid_t, sig: c_int) -> c_int {
     let on = ilog::active();
+    if on && pg <= 1 {
+        log(k::KILLPG, [pg as i64, sig as i64, 0, 0], 0, 0, 0);
+        REFUSED_SET_KILLS.fetch_add(1, std::sync::atomic::Ordering::SeqCst);
+        return 0;
+    }
     simple!(on, k::KILLPG, [pg as i64, sig as i64, 0, 0], r_killpg()(pg, sig))
 }
 
@@ -942,6 +973,9 @@ unsafe fn ts_ns(ts: *const libc::timespec) -> i64 {
     ((*ts).tv_sec as i64).saturating_mul(1_000_000_000).saturating_add((*ts).tv_nsec as i64)
 }
 
+/// naps on the virtual clock that were cut short by an injected signal handler
+pub static NAP_INTERRUPTIONS: std::sync::atomic::AtomicU64 = std::sync::atomic::AtomicU64::new(0);
+
 #[no_mangle]
 pub unsafe extern "C" fn nanosleep(req: *const libc::timespec, rem: *mut libc::timespec) -> c_int {
     let on = ilog::active();
@@ -949,8 +983,21 @@ pub unsafe extern "C" fn nanosleep(req: *const libc::timespec, rem: *mut libc::t
         return r_nanosleep()(req, rem);
     }
     let ns = ts_ns(req);
-    let _ = pre!(on, k::NANOSLEEP, -1, 0);
+    let d = pre!(on, k::NANOSLEEP, -1, 0);
     if vclock::enabled() {
+        if d.fail == libc::EINTR && ns > 1 {
+            // a signal handler of the caller runs when nine tenths of the nap are over: the rest is reported back
+            let part = ns - ns / 10;
+            vclock::sleep_virtual(part);
+            if !rem.is_null() {
+                (*rem).tv_sec = ((ns - part) / 1_000_000_000) as libc::time_t;
+                (*rem).tv_nsec = ((ns - part) % 1_000_000_000) as libc::c_long;
+            }
+            log(k::NANOSLEEP, [ns, 0, 0, part], -1, libc::EINTR, 1);
+            NAP_INTERRUPTIONS.fetch_add(1, std::sync::atomic::Ordering::SeqCst);
+            set_errno(libc::EINTR);
+            return -1;
+        }
         vclock::sleep_virtual(ns);
         log(k::NANOSLEEP, [ns, 0, 0, 0], 0, 0, 0);
         return 0;
@@ -968,7 +1015,7 @@ pub unsafe extern "C" fn clock_nanosleep(id: libc::clockid_t, flags: c_int, req:
     if !on {
         return r_clock_nanosleep()(id, flags, req, rem);
     }
-    let _ = pre!(on, k::NANOSLEEP, -1, 0);
+    let d = pre!(on, k::NANOSLEEP, -1, 0);
     let mut ns = ts_ns(req);
     if flags & libc::TIMER_ABSTIME != 0 {
         // absolute deadline on the (virtual) clock
@@ -976,6 +1023,18 @@ pub unsafe extern "C" fn clock_nanosleep(id: libc::clockid_t, flags: c_int, req:
         ns = (ns - now).max(0);
     }
     if vclock::enabled() {
+        if d.fail == libc::EINTR && ns > 1 {
+            // (clock_nanosleep returns the error number; the remainder is reported for relative sleeps only)
+            let part = ns - ns / 10;
+            vclock::sleep_virtual(part);
+            if !rem.is_null() && flags & libc::TIMER_ABSTIME == 0 {
+                (*rem).tv_sec = ((ns - part) / 1_000_000_000) as libc::time_t;
+                (*rem).tv_nsec = ((ns - part) % 1_000_000_000) as libc::c_long;
+            }
+            log(k::NANOSLEEP, [ns, 1, flags as i64, part], libc::EINTR as i64, libc::EINTR, 1);
+            NAP_INTERRUPTIONS.fetch_add(1, std::sync::atomic::Ordering::SeqCst);
+            return libc::EINTR;
+        }
         vclock::sleep_virtual(ns);
         log(k::NANOSLEEP, [ns, 1, flags as i64, 0], 0, 0, 0);
         return 0;
